@@ -374,10 +374,16 @@ def generate_burst(rng, tier='quick', stack=None, **kw):
   t = rng.choice([0.0, 0.05])
   i = 0
   size = rng.choice([8, 20, 33, 40, 48, 64]) * n_eps
-  for w in range(rng.randint(2, 4)):
+  waves = rng.randint(2, 4)
+  huge = stack == 'mux' and rng.random() < 0.2
+  if huge:
+    # more requests outstanding on one connection than fit in one byte of tag
+    size = rng.choice([262, 300, 340]) * n_eps
+    waves = rng.randint(1, 2)
+  for w in range(waves):
     for _ in range(size):
       m = rng.choice(['echo', 'echo', 'echo', 'poke', 'risky'])
-      svc = {'delay': rng.choice([0.0, 0.001, 0.005, 0.02, 0.05])}
+      svc = {'delay': rng.choice([0.0, 0.001, 0.005, 0.02, 0.05] if not huge else [0.05, 0.08, 0.12, 0.2])}
       if rng.random() < 0.05:
         svc['kind'] = 'appexc'
       ops.append({'t': round(t, 6), 'op': 'call', 'id': 'c%d' % i, 'method': m, 'payload': rng.choice(PAYLOADS),
@@ -451,7 +457,18 @@ def generate_c09(rng, tier='quick', stack=None, **kw):
   t = rng.choice([0.0, 0.0, 0.5, 3.0])
   last_heal = 0.0
   down_now = set()
-  for _ in range(rng.randint(1, 3)):
+  all_down = balancer == 'aperture' and n_eps >= 2 and rng.random() < 0.25
+  if all_down:
+    # an aperture smaller than the server set; every member becomes unreachable,
+    # then a single one returns while the rest stay down
+    cfg['aperture']['min_size'] = rng.randint(1, n_eps - 1)
+    t = rng.choice([0.5, 3.0])
+    for ep in range(n_eps):
+      faults.append({'t': round(t + rng.choice([0.0, 0.7, 2.5]), 3), 'do': 'crash', 'ep': ep})
+    t += rng.choice([10.0, 45.0, 90.0])
+    faults.append({'t': round(t, 3), 'do': 'restart', 'ep': rng.randrange(n_eps)})
+    last_heal = t
+  for _ in range(rng.randint(1, 3) if not all_down else 0):
     ep = rng.randrange(n_eps)
     do = rng.choice(['crash', 'crash', 'crash_blackhole', 'refuse', 'reset'])
     if t == 0.0 and do != 'reset':
